@@ -71,6 +71,8 @@ pub struct WorldState {
     pub calls: Vec<Range<u64>>,
     pub knobs: StreamKnobs,
     pub fired: Option<Fired>,
+    /// The fault chosen for this run (it fires only if the stream is polled at that point).
+    pub planned: Option<Fired>,
     pub fault_armed: bool,
     pub events: Vec<(u64, u64, Waker)>,
     pub seq: u64,
@@ -95,6 +97,7 @@ impl World {
                 calls: Vec::new(),
                 knobs: StreamKnobs::default(),
                 fired: None,
+                planned: None,
                 fault_armed: false,
                 events: Vec::new(),
                 seq: 0,
@@ -179,6 +182,7 @@ impl http_serve::Entity for SimEntity {
                 if let Some(at) = at {
                     fault = Some((kind, at));
                     st.fault_armed = false;
+                    st.planned = Some(Fired { kind, call, at, range_len: len, chunks_before: 0, pending_before: false });
                 }
             }
         }
